@@ -186,8 +186,32 @@ def run(ctx):
                 pass
     # refused look-alikes must leave no trace: the genuine recorded blocks still pass afterwards (same process)
     if all(b is not None for b in blocks):
+        from skepticoin.datatypes import BlockHeader, BlockSummary
         cs3 = CoinState.empty().add_block_no_validation(blocks[0])
         for (h, hexid, raw), b in list(zip(recorded, blocks))[1:]:
+            # ... including, right before each genuine block, copies of it that claim a wrong height (one too high, about
+            # twice the chain length, far beyond it), re-mined so that the header passes the stand-alone checks: their
+            # evidence reconstruction samples heights that do not exist and fails half-way
+            sm = b.header.summary
+            for claimed in (h + 1, 2 * h + 2, 64):
+                made = 0
+                cb = world.coinbase_tx(claimed, [(refmodel.subsidy(claimed), world.K[4])], data=b'vf')
+                mr = enc.merkle_root([enc.txid(cb)])
+                for nonce in range(1, 200000):
+                    junk = Block(BlockHeader(BlockSummary(claimed, sm.previous_block_hash, mr, sm.timestamp,
+                                                          sm.target, nonce), b.header.pow_evidence), [cb])
+                    if junk.hash() >= junk.target:
+                        continue
+                    made += 1
+                    n += 1
+                    try:
+                        cs3.add_block(junk, b.timestamp)
+                        V('wrong-height-copy-accepted', "a copy of recorded block %d claiming height %d is accepted" % (h, claimed),
+                          {'k': 'rec'})
+                    except Exception:
+                        pass
+                    if made >= 2:
+                        break
             n += 1
             try:
                 cs3 = cs3.add_block(Block.deserialize(raw), b.timestamp)
